@@ -13,7 +13,9 @@
 //
 // Two further dimensions: size (nesting depth and token length, enumerated
 // over one-dimensional ranges that cross the power-of-two boundaries) and
-// two-step label sequences (construct with l1, SetLabels(l2), read back l2).
+// two-step label sequences (construct with l1, SetLabels(l2), read back l2);
+// and two-step generation histories (generate, edit, generate again: both
+// results read back as their own state, see history.go).
 package main
 
 import (
@@ -43,6 +45,14 @@ type Data struct {
 	// trav: Root == "" means a relative traversal
 	Root  string `json:"root,omitempty"`
 	Steps []Step `json:"steps,omitempty"`
+	// hist (two-step generation history, see history.go): Op is the edit made
+	// between the two generations; state 1 uses V / Labels / BlockType /
+	// Root+Steps, the edit uses V2 / Labels2 / BlockType2 / Root2+Steps2
+	Op         string `json:"op,omitempty"`
+	V2         *VD    `json:"v2,omitempty"`
+	BlockType2 string `json:"block_type2,omitempty"`
+	Root2      string `json:"root2,omitempty"`
+	Steps2     []Step `json:"steps2,omitempty"`
 }
 
 // counters: lock-free named counters (the key set is fixed up front, so the
@@ -79,6 +89,7 @@ var counters = newCounterSet(
 	"label_lists_read_back_hclsyntax", "label_lists_read_back_constructed", "label_lists_read_back_hclwrite",
 	"label_replacements_read_back_hclsyntax", "label_replacements_read_back_constructed", "label_replacements_read_back_hclwrite",
 	"values_nested_deeper_than_32", "values_nested_deeper_than_64", "values_with_token_over_4096_bytes", "labels_or_steps_over_4096_bytes",
+	"generation_histories_read_back",
 	"traversals_negative_number_key_checked_by_evaluation_only", "traversals_read_back_statically_and_by_evaluation",
 )
 
@@ -103,6 +114,8 @@ func judge(c engine.Case) engine.Outcome {
 		return judgeLabels2(d, "hclwrite")
 	case "trav":
 		return judgeTrav(d)
+	case "hist":
+		return judgeHistory(d)
 	}
 	counters.Add("harness_unknown_mode", 1)
 	return engine.Skip()
@@ -558,6 +571,8 @@ func shrink(c engine.Case) []engine.Case {
 		if d.BlockType != "blk" {
 			out = append(out, labels2CaseMode(d.Mode, "blk", d.Labels, d.Labels2))
 		}
+	case "hist":
+		out = shrinkHistory(d)
 	case "trav":
 		for i := range d.Steps {
 			st := append(append([]Step{}, d.Steps[:i]...), d.Steps[i+1:]...)
@@ -601,6 +616,7 @@ func main() {
 			"labels: every alphabet string as a single label, all pairs of strings of length <= 1, triples over a small set, block types blk/foo-bar/é, through NewBlock, AppendNewBlock, SetLabels; oracle: Block.Labels() of the constructed block, hclsyntax Block.Labels and hclwrite.ParseConfig(...).Labels() equal the (NFC-normalised) supplied strings. " +
 			"sizes (one-dimensional ranges enumerated exhaustively across the power-of-two boundaries): nesting depth 1..70 (thorough 1..140 and 255..257, 511..513) of the wrappers [x], {k = x}, list, map, set (depth <= 8), [x, true], {a = x, b = true} and their alternations, each alone (the attribute path writes it followed by further attributes and a block), as non-last / last attribute of an object, non-last / last tuple element and as map values; token lengths {1..16} U {2^k-1, 2^k, 2^k+1 : k = 5..14 (thorough 16)} for strings made of a, é, LF, ${ and the quote in every string position including map keys and attribute names, for the numbers 10^(n-1), -10^(n-1), 10^-(n-2), for block labels, block type names, attribute names, traversal root names, attribute steps, string keys and number keys; same oracle. " +
 			"label replacements: every ordered pair (l1, l2) of labels from {all strings of <= 4 (thorough 5) characters over {$,{,a} and over {%,{,a}, all of <= 3 over {$,%,{,a}, all of <= 1 rune of the escape alphabet} and every ordered pair of label lists of length <= 2 over 9 labels: NewBlock/AppendNewBlock with l1 (optionally reading Labels() in between), then SetLabels(l2); oracle: the written bytes parse (hclsyntax and hclwrite) with labels l2 and Block.Labels() is l2; a failure that l2 shows on its own in one step keeps the one-step class, any other gets a c11.label.replace.* class. " +
+			"generation histories (two generations from the same object with one edit in between): every ordered pair (v1, v2) over a reduced alphabet of 27 values (thorough ~70) of every kind with rendered lengths from 1 to ~1200 bytes (thorough: around 4096), single- and multi-line, x every edit {replace x = v1 by v2, append an attribute v2 after the following block, add an attribute v2 inside the following block, TokensForValue(v1) then TokensForValue(v2)}, plus removing an earlier attribute; every ordered pair of 13 label lists through SetLabels, of 5 block types through SetType, of 8 traversals through SetAttributeTraversal, and traversal<->value replacements; the bytes are taken after each generation with File.Bytes, Tokens.Bytes of the file's tokens and File.WriteTo into a caller's buffer (Tokens.Bytes / Tokens.WriteTo for bare tokens); oracle: every result of generation 1, read after generation 2, still parses and reads back as state 1 and is byte-identical to a copy made when it was returned; every result of generation 2 reads back as state 2. " +
 			"Non-trivial = read back successfully; distinct = distinct generated text / read-back value.",
 		Assumptions: []string{
 			"go-cty (value construction, NFC normalisation, convert.Convert, RawEquals, number parsing) is trusted",
